@@ -9,6 +9,12 @@ TB = "CPython 3.12, crosshair-tool 0.0.110, z3 5.1; the import shim of lib/repo_
 
 # id -> (category, technique, text, note, design_ref, engine)
 CHECKS = {
+    "C21": ("model_checking",
+            "CrossHair/z3 symbolic execution of the real comptime dunder dispatch (DunderMixin + fall-back wrappers) and the real regular-mode _synthesize_binary under the same symbolic type-check outcomes",
+            "Restricted to operator dispatch: for each of 18 binary operators, operand kinds (traced value / Python constant on either side) and outcomes of the direct and reflected method, the call the comptime path "
+            "finally makes and the call the regular checker makes must both denote the source expression (meaning table written from the Python data model), and both reject iff no method applies; every dunder DunderMixin defines "
+            "asks for the method of its own name; unary table agrees.",
+            TB + "; recording stand-ins for tracing state and Globals.get_instance_func; the data-model table in the harness", "DESIGN.md §5 C21", "E1"),
     "C24": ("model_checking",
             "CrossHair/z3 symbolic execution of the real unitary checker on checked blocks with symbolic context/callee/nested-call flag sets and argument shapes; oracle = the statement's rejection rule",
             "BBUnitaryChecker/check_cfg_unitary/check_invalid_under_dagger run on blocks built from the real node classes: all 8x8x8 flag sets x 6 argument shapes x 9 positions of the call (statement, assignment/annotated/augmented value, "
